@@ -13,7 +13,10 @@ RULE = ("case = split t-of-n (seeded secret, also 1 and r-1; CSPRNG or seeded po
         "over another message} at one position + message (32 random bytes, empty, 1000 bytes).  TLC enumerates EVERY case "
         "for n<=5 (quick) / n<=7 (thorough) by model checking ThresholdBLSGen (states = cases); n=8..10 are sampled by a "
         "seeded generator.  The executor runs each on tbls (herumi) and logs relations (recovered==secret, group pubkey "
-        "recovered, aggregate==signature of the undivided key, verifies, substituted partial differs from the honest one); "
+        "recovered, aggregate==signature of the undivided key, verifies, substituted partial differs from the honest one; after "
+        "every honest combination, in the same process: each partial / the aggregate / the plain BLS aggregate verified "
+        "genuinely FIRST, then the same bytes against another message (replayVerifies, crossVerifies), then again "
+        "(stillVerifies)); "
         "the trace spec demands the model's value of each.  evaluations = cases executed; distinct_nontrivial = distinct "
         "<n,t,S,substitution,secret kind,split mode,message kind,relations> tuples in which a substitution, if any, really "
         "changed the partial (seeds are NOT part of the tuple, so re-runs of a case with other secrets do not count)")
@@ -24,6 +27,8 @@ ASSUMPTIONS = [
     "shares are addressed by rank in the sorted id list ThresholdSplit returns (n pairwise distinct ids demanded, not 1..n)",
     "fewer than t shares, t > n and t < 2 are outside the statement and not exercised",
     "whether a substituted combination is refused by ThresholdAggregate or only by Verify is left open",
+    "verification is taken to be a pure function of (public key, message, signature): the replay relations are checked "
+    "within one executor process (8 workers share it), genuine verification always first",
 ]
 
 
@@ -96,6 +101,8 @@ def sampled(seed, k):
         if kind == "none":
             case.append({"ev": "Recover", "S": S})
         case.append({"ev": "Combine", "S": S, "sub": sub})
+        if kind == "none":
+            case.append({"ev": "Replay"})
         out.append(decorate(case, seeded(r), r.choice(["csprng", "csprng", "seeded"]), seeded(r)))
     return out
 
@@ -181,7 +188,27 @@ def mutators():
         if e and e["sub"]["kind"] != "none":
             e["altered"] = False
             return t
-    return [("honest combination does not verify", flip_verifies_honest),
+    def replay_accepted(t):
+        e = ev(t, "Replay")
+        if e:
+            e["replayVerifies"] = True
+            return t
+
+    def cross_accepted(t):
+        e = ev(t, "Replay")
+        if e:
+            e["crossVerifies"] = True
+            return t
+
+    def forgotten(t):
+        e = ev(t, "Replay")
+        if e:
+            e["stillVerifies"] = False
+            return t
+    return [("a verified signature verifies for another message", replay_accepted),
+            ("a verified signature verifies for another verified signature's message", cross_accepted),
+            ("a signature no longer verifies after the replay attempt", forgotten),
+            ("honest combination does not verify", flip_verifies_honest),
             ("substituted combination verifies", flip_verifies_subst),
             ("honest aggregate differs from the direct signature", agg_differs),
             ("recovered secret differs", wrong_secret), ("recovered group key differs", wrong_pub),
